@@ -1183,6 +1183,52 @@ func TestGocvReplay(t *testing.T) {
 	replayers["(*kmipclient.Client).Close"] = replayers["scenario:C11"]
 	replayers["(*kmipclient.Client).doRountrip"] = replayers["scenario:C11"]
 	replayers["(*kmipclient.Client).reconnect"] = replayers["scenario:C11"]
+	// registry bijection at run time (C17): everything registered is written by name and read back as the same number
+	replayers["scenario:C17"] = &Replayer{PkgDir: ".", Oracle: "for every registered tag, enumeration value and bit-mask flag: the name written by the XML form is read back as the same number (exhaustive over the run-time registry)",
+		Template: `package kmip_test
+
+import (
+	"testing"
+
+	"github.com/ovh/kmip-go"
+	"github.com/ovh/kmip-go/ttlv"
+)
+
+func TestGocvReplay(t *testing.T) {
+	_ = kmip.TagActivationDate
+	for tag := 0x420000; tag < 0x420200; tag++ {
+		name := ttlv.TagString(tag)
+		if len(name) > 2 && name[:2] == "0x" {
+			continue
+		}
+		// tags go through the XML form by name
+		v := ttlv.Value{Tag: tag, Value: int32(7)}
+		var back ttlv.Value
+		if err := ttlv.UnmarshalXML(ttlv.MarshalXML(&v), &back); err != nil || back.Tag != tag {
+			t.Fatalf("GOCV-REPRODUCED: {{.Obligation}}: tag 0x%06X written as %q is read back as 0x%06X (err %v)", tag, name, back.Tag, err)
+		}
+		for val, ename := range ttlv.EnumValuesByTag(tag) {
+			got, err := ttlv.EnumByName(tag, ename)
+			if err != nil || got != val {
+				t.Fatalf("GOCV-REPRODUCED: {{.Obligation}}: %s value %d is written as %q which is read back as %d (err %v)", name, val, ename, got, err)
+			}
+			if n2 := ttlv.EnumName(tag, val); n2 != ename {
+				t.Fatalf("GOCV-REPRODUCED: {{.Obligation}}: %s value %d has two names %q / %q", name, val, ename, n2)
+			}
+		}
+		for i := 0; i < 32; i++ {
+			s := string(ttlv.AppendBitmaskString(nil, tag, int32(1)<<uint(i), "|"))
+			if s == "" || (len(s) > 2 && s[:2] == "0x") {
+				continue
+			}
+			got, err := ttlv.BitmaskByStr(tag, s)
+			if err != nil || got != int32(1)<<uint(i) {
+				t.Fatalf("GOCV-REPRODUCED: {{.Obligation}}: %s flag %d is written as %q which is read back as %d (err %v)", name, i, s, got, err)
+			}
+		}
+	}
+}
+`}
 	replayers["ttlv.bytesToBigInt"] = &Replayer{PkgDir: "ttlv", Inputs: []ReplayInput{{Name: "V", Expr: "v", Kind: "bytes"}},
 		Oracle: "bytesToBigInt on the model's bytes returns normally and leaves its argument unchanged",
 		Template: strings.Replace(replayPrelude, "{{.Pkg}}", "ttlv", 1) + `
